@@ -51,6 +51,9 @@ var targets = []target{
 	{"server/proxy/proxy.go", "Manager", "Add"},
 	{"server/proxy/proxy.go", "Manager", "Del"},
 	{"pkg/config/v1/proxy.go", "ProxyBaseConfig", "UnmarshalFromMsg"},
+	{"pkg/util/net/conn.go", "wrapQuicStream", "Close"},
+	{"pkg/util/net/conn.go", "CloseNotifyConn", "Close"},
+	{"pkg/util/net/conn.go", "StatsConn", "Close"},
 }
 
 func main() { tx.Main(tx.Unit{Name: "T10rel", File: "GenRelease.v", Fn: gen}) }
